@@ -4,6 +4,8 @@ import (
 	"fmt"
 	"sort"
 
+	"github.com/go-openapi/spec"
+
 	"verifharness/core"
 	"verifharness/gen"
 	"verifharness/oracle"
@@ -31,6 +33,7 @@ func c08World(env *core.Env, idx int) *gen.World {
 	o.Elements = 1 + rng.Intn(3)
 	o.MaxDepth = 1 + rng.Intn(2)
 	o.RefDensity = []float64{0.3, 0.5, 0.7}[rng.Intn(3)]
+	o.WholeDoc = rng.Intn(3) == 0
 	if idx%3 != 0 {
 		// planted faults (the other third has loader faults only)
 		o.Dangling = []float64{0, 0.08, 0.2}[rng.Intn(3)]
@@ -144,6 +147,9 @@ func c08Run(env *core.Env, idx int) core.CaseResult {
 				res.Violate(fmt.Sprintf("panic (continue=%v): %s", cont, errClass(fmt.Errorf("%s", r.Panic))), r.Panic, wit)
 				continue
 			}
+			if r.OptionsChanged != "" {
+				res.Violate("caller-options-modified", r.OptionsChanged, wit)
+			}
 			if !cont {
 				res.Count("mode.strict", 1)
 				switch {
@@ -197,6 +203,32 @@ func c08Run(env *core.Env, idx int) core.CaseResult {
 			}
 		}
 	}
+	// an unresolvable $ref is an error every time, also when the same (caller-supplied) cache has already seen the failure
+	if root, ok := full.Docs[w.Root].(map[string]interface{}); ok && len(ext) > 0 {
+		if defs, ok := root["definitions"].(map[string]interface{}); ok {
+			var names []string
+			for k := range defs {
+				names = append(names, k)
+			}
+			sort.Strings(names)
+			refuse := map[string]bool{}
+			for _, u := range ext {
+				refuse[u] = true
+			}
+			for _, elem := range names {
+				cache := spec.VerifNewDefaultCache()
+				first := c18Expand(w, elem, cache, refuse, false)
+				second := c18Expand(w, elem, cache, refuse, false)
+				res.Evals += 2
+				res.Count("repeated-failure-with-shared-cache", 1)
+				if first.pan == "" && first.err != nil && second.pan == "" && second.err == nil {
+					res.Violate("silent-failure: error reported once, nil error when the same cache is used again",
+						fmt.Sprintf("first call: %v; second call with the same cache and the same refusing loader: nil", first.err),
+						worldWitness(w, expandOpts{}, map[string]interface{}{"entry": "ExpandSchemaWithBasePath", "element": elem, "loader_refuses": ext}))
+				}
+			}
+		}
+	}
 	res.NonTrivial = sawFaultAndHealthy
 	res.Sample = map[string]interface{}{"documents": len(w.Docs), "ref_holders": w.Slots, "fault_subsets": len(subsets), "planted": map[string]int{
 		"dangling": w.Features["fault.dangling-pointer"], "ill-typed": w.Features["fault.ill-typed"], "missing-doc": w.Features["fault.missing-document"]}}
@@ -235,7 +267,7 @@ func init() {
 		Run:      c08Run,
 		Floors: func(env *core.Env) []string {
 			return []string{"fault.loader-refusal", "fault.missing-document", "fault.dangling-pointer", "fault.ill-typed", "fault-holder.schema", "fault-holder.parameter",
-				"fault-holder.response", "fault-holder.pathItem", "strict.error-expected", "strict.no-error-expected", "continue.with-faults", "worlds-with-all-subsets-enumerated"}
+				"fault-holder.response", "fault-holder.pathItem", "strict.error-expected", "strict.no-error-expected", "continue.with-faults", "worlds-with-all-subsets-enumerated", "repeated-failure-with-shared-cache"}
 		},
 		Exhaustive: func(env *core.Env) bool { return false },
 		Assumptions: []string{"the loader never refuses the root document itself",
